@@ -49,6 +49,16 @@ TABLE = [
      "are compared before/after on the success and the exception path; mutators must be all-or-nothing; a failing save must "
      "leave a pre-existing destination file byte-identical.",
      _NOTE, "DESIGN.md section 3 C13"),
+    ("C14", "Hypothesis generated tier/reference pairs with a per-timestamp validity predicate (dejitter/align) and an exact-rational reference model (morph)",
+     "References are built from the tier's own timestamps displaced by fractions and exact multiples of maxDifference (incl. "
+     "equidistant candidates and empty references); every result timestamp must satisfy the moved/unchanged rule, labels and count "
+     "kept, errors only when an interval can collapse; morph compared with an exact model incl. gaps, first start and trailing gap.",
+     _NOTE, "DESIGN.md section 3 C14"),
+    ("C15", "Hypothesis generated queries vs direct re-implementations of the definitions; exhaustive lattice for the overlap helper; perturbation/corruption injection",
+     "find/getNonEntries/timestamps/getValuesInIntervals/getValuesAtPoints/intervalOverlapCheck/invertIntervalList are compared "
+     "with definitions re-implemented in /verif on generated inputs (ties, samples on boundaries, touching intervals); equality "
+     "must be reflexive, symmetric and detect every single-field perturbation; validate() must be False exactly for injected corruptions.",
+     _NOTE, "DESIGN.md section 3 C15"),
 ]
 
 PENDING = {}
